@@ -90,7 +90,7 @@ F02(r) ==
      \* (iv) directive form == programmatic form: same decompiled program, same table
      {f \in {<<"C02", r.id, vi, 0, "directive">> : vi \in Idx(r.vars)} :
         LET v == r.vars[f[3]] IN
-        v.how \in {"dir", "mix", "tail"} /\ LET b == r.vars[base(f[3])] IN
+        v.how \in {"dir", "mix", "tail", "api"} /\ LET b == r.vars[base(f[3])] IN
                          \/ v.cout # b.cout
                          \/ (v.cout = "ok" /\ (v.dump # b.dump \/ v.table # b.table))}
      \cup
